@@ -41,6 +41,10 @@ type methSpec struct {
 	nmParams  bool // NelderMead: explicit Reflection/Expansion/Contraction/Shrink/SimplexSize
 	cmaChol   bool // CmaEsChol: user-supplied InitCholesky
 	cmaStep   bool // CmaEsChol: explicit InitStepSize
+	cmaStop   bool // CmaEsChol: explicit StopLogDet (-5: converges early by its own criterion)
+	cgRestart int  // CG: 0 defaults, 1 IterationRestartFactor 1 / AngleRestartThreshold -0.5, 2 IterationRestartFactor 0.5 / AngleRestartThreshold -1
+	newtonInc int  // Newton.Increase: 0 default, 1 -> 2, 2 -> 10
+	locsT     bool // ListSearch: Locs is a transposed view, not a *mat.Dense
 }
 
 func (m methSpec) local() bool      { return m.kind <= mNM }
@@ -96,7 +100,8 @@ func (m methSpec) effLS() int {
 
 type setSpec struct {
 	limF, limG, limH, limMaj int
-	runtime                  bool
+	runtime                  int // 0 none, 1 = 1ns (expired at every check), 2 = 20ms with the objective sleeping 50ms in Func call sleepAt, 3 = 1 hour (never expires)
+	sleepAt                  int
 	gradThr                  float64
 	conv                     int // 0 nil, 1 NeverTerminate, 2 stopAfter, 3 logged FunctionConverge with explicit parameters
 	convK                    int
@@ -111,8 +116,11 @@ type setSpec struct {
 	yields                   bool
 }
 
+// runtimeStops reports whether the Runtime setting is one that must end the run.
+func (s setSpec) runtimeStops() bool { return s.runtime == 1 || s.runtime == 2 }
+
 func (s setSpec) anyLimit() bool {
-	return s.limF > 0 || s.limG > 0 || s.limH > 0 || s.limMaj > 0 || s.runtime
+	return s.limF > 0 || s.limG > 0 || s.limH > 0 || s.limMaj > 0 || s.runtimeStops()
 }
 
 type caseSpec struct {
@@ -128,9 +136,9 @@ type caseSpec struct {
 }
 
 func (cs *caseSpec) describe() string {
-	return fmt.Sprintf("Minimize group=%s method=%s ls=%s/%d step=%d store=%d pop=%d rows=%d simplex=%v nmParams=%v cmaChol=%v cmaStep=%v gradStop=%d obj=%s dim=%d fault=%s k=%d gfault=%s limF=%d limG=%d limH=%d limMaj=%d runtime=%v gradThr=%v conv=%d/%d init=%d conc=%d rec=%s cb=%d/%d noValve=%v yields=%v reuse=%v run=%d seed=%d",
-		cs.group, cs.m.name(), cs.m.lsName(), cs.m.lsParam, cs.m.stepSizer, cs.m.store, cs.m.pop, cs.m.rows, cs.m.simplex, cs.m.nmParams, cs.m.cmaChol, cs.m.cmaStep, cs.m.gradStop,
-		cs.obj.name, cs.obj.dim, cs.ft.name(), cs.ft.k, cs.gft.name(), cs.s.limF, cs.s.limG, cs.s.limH, cs.s.limMaj, cs.s.runtime, cs.s.gradThr, cs.s.conv, cs.s.convK,
+	return fmt.Sprintf("Minimize group=%s method=%s ls=%s/%d step=%d store=%d pop=%d rows=%d simplex=%v nmParams=%v cmaChol=%v cmaStep=%v cmaStop=%v cgRestart=%d newtonInc=%d locsT=%v gradStop=%d obj=%s dim=%d fault=%s k=%d gfault=%s limF=%d limG=%d limH=%d limMaj=%d runtime=%d/%d gradThr=%v conv=%d/%d init=%d conc=%d rec=%s cb=%d/%d noValve=%v yields=%v reuse=%v run=%d seed=%d",
+		cs.group, cs.m.name(), cs.m.lsName(), cs.m.lsParam, cs.m.stepSizer, cs.m.store, cs.m.pop, cs.m.rows, cs.m.simplex, cs.m.nmParams, cs.m.cmaChol, cs.m.cmaStep, cs.m.cmaStop, cs.m.cgRestart, cs.m.newtonInc, cs.m.locsT, cs.m.gradStop,
+		cs.obj.name, cs.obj.dim, cs.ft.name(), cs.ft.k, cs.gft.name(), cs.s.limF, cs.s.limG, cs.s.limH, cs.s.limMaj, cs.s.runtime, cs.s.sleepAt, cs.s.gradThr, cs.s.conv, cs.s.convK,
 		cs.s.init, cs.s.concurrent, recDesc(cs.s), cs.s.cbK, cs.s.cbKind, cs.s.noValve, cs.s.yields, cs.reuse, cs.run, cs.seed)
 }
 
@@ -179,6 +187,14 @@ type builtMethod struct {
 }
 
 func buildLS(kind, param int) *lsWrap {
+	switch kind*10 + param {
+	case 12:
+		return &lsWrap{inner: &optimize.Backtracking{DecreaseFactor: 1e-3, ContractionFactor: 0.8}, kind: 1, dec: 1e-3}
+	case 22:
+		return &lsWrap{inner: &optimize.Bisection{CurvatureFactor: 0.5}, kind: 2, dec: 0, curv: 0.5}
+	case 32:
+		return &lsWrap{inner: &optimize.MoreThuente{StepTolerance: 1e-6, MinimumStep: 1e-12, MaximumStep: 50}, kind: 3, dec: 0, curv: 0.9}
+	}
 	switch kind {
 	case 1:
 		if param == 1 {
@@ -207,6 +223,10 @@ func buildStepSizer(k int) optimize.StepSizer {
 		return &optimize.QuadraticStepSize{}
 	case 3:
 		return &optimize.FirstOrderStepSize{}
+	case 4:
+		return &optimize.QuadraticStepSize{Threshold: 1e-8, InitialStepFactor: 0.5, MinStepSize: 1e-2, MaxStepSize: 0.5}
+	case 5:
+		return &optimize.FirstOrderStepSize{InitialStepFactor: 0.5, MinStepSize: 1e-2, MaxStepSize: 0.5}
 	}
 	return nil
 }
@@ -251,13 +271,20 @@ func (ms methSpec) build(o *objective, r *vrt.Rand, led *ledger) *builtMethod {
 		case 4:
 			v = &optimize.HagerZhang{}
 		}
-		b.m = &optimize.CG{Linesearcher: ls, Variant: v, InitialStep: buildStepSizer(ms.stepSizer), GradStopThreshold: gs}
+		cg := &optimize.CG{Linesearcher: ls, Variant: v, InitialStep: buildStepSizer(ms.stepSizer), GradStopThreshold: gs}
+		switch ms.cgRestart {
+		case 1:
+			cg.IterationRestartFactor, cg.AngleRestartThreshold = 1, -0.5
+		case 2:
+			cg.IterationRestartFactor, cg.AngleRestartThreshold = 0.5, -1
+		}
+		b.m = cg
 	case mBFGS:
 		b.m = &optimize.BFGS{Linesearcher: ls, GradStopThreshold: gs}
 	case mLBFGS:
 		b.m = &optimize.LBFGS{Linesearcher: ls, Store: ms.store, GradStopThreshold: gs}
 	case mNewton:
-		b.m = &optimize.Newton{Linesearcher: ls, GradStopThreshold: gs}
+		b.m = &optimize.Newton{Linesearcher: ls, GradStopThreshold: gs, Increase: []float64{0, 2, 10}[ms.newtonInc]}
 	case mNM:
 		nm := &optimize.NelderMead{}
 		if ms.nmParams {
@@ -288,6 +315,9 @@ func (ms methSpec) build(o *objective, r *vrt.Rand, led *ledger) *builtMethod {
 		cma := &optimize.CmaEsChol{Population: ms.pop, ForgetBest: ms.forget, Src: vrt.NewRand(r.Uint64())}
 		if ms.cmaStep {
 			cma.InitStepSize = 0.3
+		}
+		if ms.cmaStop {
+			cma.StopLogDet = -5
 		}
 		if ms.cmaChol {
 			d := o.dim
@@ -329,7 +359,13 @@ func (ms methSpec) build(o *objective, r *vrt.Rand, led *ledger) *builtMethod {
 				b.locs.Set(i, j, o.x0[j]+3*r.Sym())
 			}
 		}
-		b.m = &optimize.ListSearch{Locs: b.locs}
+		if ms.locsT {
+			// the same list handed over as a general mat.Matrix
+			b.locs = mat.DenseCopyOf(b.locs.T())
+			b.m = &optimize.ListSearch{Locs: b.locs.T()}
+		} else {
+			b.m = &optimize.ListSearch{Locs: b.locs}
+		}
 		b.locsSnap = append([]float64(nil), b.locs.RawMatrix().Data...)
 	}
 	return b
